@@ -37,6 +37,20 @@ Section HistoryProofs.
     apply (response_bundle_facts Hh token_sign verify ds_hex) in Hj as (A & B & C & _ & D & _). auto.
   Qed.
 
+  (* the response header: the request's id, serial, domain and ZSK policy are echoed; the KSK policy states the configured periods;
+     the bundles are what sign_bundles returned, one per request bundle in order *)
+  Lemma create_skr_header c st ns : create_skr c st = OK ns ->
+    rs_id ns = rq_id (s_ksr st) /\ rs_serial ns = rq_serial (s_ksr st) /\ rs_domain ns = rq_domain (s_ksr st) /\ rs_zsk ns = rq_zsk (s_ksr st) /\
+    (sp_publish_safety (rs_ksk ns), sp_retire_safety (rs_ksk ns), sp_max_validity (rs_ksk ns), sp_min_validity (rs_ksk ns), sp_max_overlap (rs_ksk ns), sp_min_overlap (rs_ksk ns))
+      = (sp_publish_safety (c_ksk c), sp_retire_safety (c_ksk c), sp_max_validity (c_ksk c), sp_min_validity (c_ksk c), sp_max_overlap (c_ksk c), sp_min_overlap (c_ksk c)) /\
+    sign_bundles Hh token_sign verify ds_hex (s_ksr st) (s_schema st) (s_ms st) (c_ttl c) (c_sn c) (c_kks c) (c_validate c) = OK (rs_bundles ns) /\
+    length (rs_bundles ns) = length (rq_bundles (s_ksr st)).
+  Proof.
+    unfold History.create_skr. intros H. apply bind_ok_inv in H as (bs & Hb & H). injection H as <-.
+    cbn [rs_id rs_serial rs_domain rs_zsk rs_ksk rs_bundles]. repeat split; try reflexivity; [exact Hb|].
+    unfold sign_bundles in Hb. apply (sign_bundles_all Hh token_sign verify ds_hex) in Hb. symmetry. eapply forall2_length. exact Hb.
+  Qed.
+
   Lemma create_skr_reloads c st ns : create_skr c st = OK ns ->
     for_each (check_valid_signatures (response_verify verify) (c_validate c)) (rs_bundles ns) = OK tt.
   Proof.
